@@ -700,4 +700,133 @@ theorem poolsSound_step (c : Cfg) (r : Req) (n : Nat) (i : Inner) (st : ServerSt
       · omega
       · have := hlt' _ (List.mem_append_right _ h); omega
 
+/-! ### the site as written: its chain is the chain of its meaning -/
+
+theorem logSetup_started (lines : List LogLine) (r : LogRule) (h : r ∈ logSetup lines) :
+    r.entries.all (·.started) = true := by
+  unfold logSetup at h
+  obtain ⟨r0, _, rfl⟩ := List.mem_map.mp h
+  simp [List.all_eq_true]
+
+/-- every entry of the rule a request falls under was started: `log` behaves as `logW` -/
+theorem logRuleW_setup (lines : List LogLine) (path : String) (b : Beh) :
+    logRuleW (logRuleFor (logSetup lines) path) b =
+      if (logRuleFor (logSetup lines) path).isSome then logW b else b := by
+  unfold logRuleW
+  cases h : logRuleFor (logSetup lines) path with
+  | none => simp
+  | some r =>
+    have hm : r ∈ logSetup lines := by
+      unfold logRuleFor at h
+      exact List.mem_of_find?_eq_some h
+    simp [logSetup_started lines r hm]
+
+theorem gzipConfigFor_isSome (cfgs : List GzipLine) (path : String) (html : Bool) :
+    (gzipConfigFor cfgs path html).isSome = ((cfgs.any fun g => !g.notPaths.any (pathMatches path)) && html) := by
+  unfold gzipConfigFor
+  cases html
+  · simp
+  · simp only [Bool.and_true]
+    induction cfgs with
+    | nil => rfl
+    | cons g gs ih =>
+      simp only [List.find?_cons, List.any_cons]
+      cases hg : (!g.notPaths.any (pathMatches path)) <;> simp [ih]
+
+theorem site_effectiveErrors (s : Site) (path : String) : effectiveErrors (s.cfg path) = s.errMode := by
+  unfold effectiveErrors Site.cfg
+  cases s.errMode <;> simp
+
+theorem tplRuleW_eq (o : Option TplLine) (html : Bool) (i : Inner) :
+    tplRuleW o html i = if o.isSome then templatesW html i else i.beh := by
+  cases o <;> rfl
+
+theorem gzipConfigW_eq (o : Option GzipLine) (b : Beh) : gzipConfigW o b = if o.isSome then gzipW b else b := by
+  cases o <;> rfl
+
+/-- the chain written in terms of the rule lists is the chain of the site's meaning for the path -/
+theorem siteChain_eq (s : Site) (path : String) (r : Req) (n : Nat) (i : Inner) :
+    siteChain s path r n i = chain (s.cfg path) r n i := by
+  unfold siteChain chain
+  rw [logRuleW_setup, site_effectiveErrors, tplRuleW_eq, gzipConfigW_eq, gzipConfigFor_isSome]
+  simp only [Site.cfg]
+  have hb : ∀ x : Bool, x = false ∨ x = true := fun x => by cases x <;> simp
+  rcases hb s.header.isEmpty with hE | hE <;> rcases hb r.ae with ha | ha <;>
+    cases s.errMode <;> simp only [hE, ha, errorsOptW, Bool.not_false, Bool.not_true, Bool.and_true, Bool.and_false,
+      if_true, Bool.false_eq_true, if_false] <;> rfl
+
+theorem siteServe_eq (s : Site) (path : String) (r : Req) (n : Nat) (i : Inner) :
+    siteServe s path r n i = serve (s.cfg path) r n i := by
+  unfold siteServe serve; rw [siteChain_eq]
+
+theorem siteServeWire_eq (s : Site) (path : String) (r : Req) (n : Nat) (i : Inner) :
+    siteServeWire s path r n i = serveWire (s.cfg path) r n i := by
+  unfold siteServeWire serveWire; rw [siteServe_eq]
+
+/-- appendEntry keeps the scopes already there and adds at most the new one -/
+theorem appendEntry_scopes (rules : List LogRule) (sc : String) (e : LogEntry) :
+    (appendEntry rules sc e).map (·.scope) =
+      if sc ∈ rules.map (·.scope) then rules.map (·.scope) else rules.map (·.scope) ++ [sc] := by
+  induction rules with
+  | nil => simp [appendEntry]
+  | cons r rs ih =>
+    unfold appendEntry
+    by_cases h : r.scope = sc
+    · simp [h]
+    · have h' : ¬ sc = r.scope := fun e => h e.symm
+      simp only [h, if_false, List.map_cons, ih, List.mem_cons, h', false_or]
+      split <;> simp
+
+/-- whether `log` acts on a request is decided by the scopes written, not by outputs or formats -/
+theorem logRuleFor_isSome_scopes (rules : List LogRule) (path : String) :
+    (logRuleFor rules path).isSome = (rules.map (·.scope)).any (pathMatches path) := by
+  unfold logRuleFor
+  induction rules with
+  | nil => rfl
+  | cons r rs ih =>
+    simp only [List.find?_cons, List.map_cons, List.any_cons]
+    cases pathMatches path r.scope <;> simp [ih]
+
+theorem logSetup_scopes (lines : List LogLine) : (logSetup lines).map (·.scope) = (logParse lines).map (·.scope) := by
+  unfold logSetup; simp [List.map_map, Function.comp_def]
+
+theorem any_append_singleton_of_mem {α} (l : List α) (p : α → Bool) (a : α) :
+    (l ++ [a]).any p = (l.any p || p a) := by simp
+
+theorem logParse_any_scope (lines : List LogLine) (path : String) (init : List LogRule) :
+    ((lines.foldl (fun rules l => appendEntry rules (l.scope.getD "/") ⟨l.out, l.fmt.getD "{common}", false⟩) init).map
+        (·.scope)).any (pathMatches path) =
+      ((init.map (·.scope)).any (pathMatches path) || lines.any fun l => pathMatches path (l.scope.getD "/")) := by
+  induction lines generalizing init with
+  | nil => simp
+  | cons l ls ih =>
+    simp only [List.foldl_cons, List.any_cons]
+    rw [ih, appendEntry_scopes]
+    by_cases hm : l.scope.getD "/" ∈ init.map (·.scope)
+    · simp only [hm, if_true]
+      by_cases hp : pathMatches path (l.scope.getD "/") = true
+      · have : (init.map (·.scope)).any (pathMatches path) = true :=
+          List.any_eq_true.mpr ⟨_, hm, hp⟩
+        simp [this]
+      · have hp' : pathMatches path (l.scope.getD "/") = false := by simpa using hp
+        simp [hp']
+    · simp only [hm, if_false, List.any_append, List.any_cons, List.any_nil, Bool.or_false, Bool.or_assoc]
+
+/-- `log` acts on a request iff some line written has a scope that matches its path — however
+many lines there are, whatever outputs they name, whatever order they are in -/
+theorem site_log_meaning (lines : List LogLine) (path : String) :
+    (logRuleFor (logSetup lines) path).isSome = lines.any fun l => pathMatches path (l.scope.getD "/") := by
+  rw [logRuleFor_isSome_scopes, logSetup_scopes]
+  unfold logParse
+  rw [logParse_any_scope]; simp
+
+theorem tplRuleFor_isSome (rules : List TplLine) (path : String) :
+    (tplRuleFor rules path).isSome = rules.any fun t => pathMatches path t.path := by
+  unfold tplRuleFor
+  induction rules with
+  | nil => rfl
+  | cons t ts ih =>
+    simp only [List.find?_cons, List.any_cons]
+    cases pathMatches path t.path <;> simp [ih]
+
 end Casket.Mw
